@@ -479,7 +479,13 @@ def random_doc(rng):
     nodes.append(x)
     return len(nodes)
 
-  body = node("body", 0, 0.0)
+  if rng.random() < 0.06:
+    # a body without any content: its own styles, animation steps and region reference are still subject to the filter
+    node("body", 0, 0.8)
+    if rng.random() < 0.3:
+      node("div", 1, 0.5)                # ... or with one empty division
+    return {"init": ini, "regions": regions, "nodes": nodes}
+  body = node("body", 0, 0.0 if rng.random() < 0.9 else 0.8)
   for _ in range(rng.randint(1, 3)):
     div = node("div", body, 0.25)
     holder = div
